@@ -59,7 +59,7 @@ def cases(tier, seed):
                  time=[0.0, -2.5, 1e300, 3.25e-7, 7.0, 123456.789, float("inf"), float("-inf"), float("nan"), -0.0][(i * 7 + rng.randrange(2)) % 10])
         # every fourth case: extrema on a decimal tie at the third significant digit (2.665 -> 2.67, -1.145 -> -1.15)
         cs.append({"gen": g, "sel_seed": seed * 73 + i, "subprocess": i < 2, "ties": i % 4 == 2})
-    return cs
+    return workload.add_reach_store(cs)
 
 
 def setup():
@@ -257,7 +257,9 @@ def run_case(case, work, rec):
         out, err = run_tool("amr_kitchen.marinate", ["marinate", path], work, False)
         key = (digest, "marinate")
         rec.count("marinate")
-        pk = path + ".pkl"
+        # beside the plotfile: next to the directory the path designates, or next to the path as spelled
+        # (they differ when the path goes up from a symbolic link) - the statement does not say which
+        pk = next((c for c in (path + ".pkl", os.path.abspath(path) + ".pkl") if os.path.isfile(c)), path + ".pkl")
         if err or not os.path.isfile(pk):
             rec.violation(f"marinate failed ({err}); pickle beside the plotfile: {os.path.isfile(pk)}", key=key)
         elif set(os.listdir(path)) != before:
